@@ -24,5 +24,11 @@ TEXT = {
   "note": "Trusted: Lean kernel; Lean Float vs Go float64 agreement (checked by correspondence only); ASCII-only modelling of case mapping and Fields; filters date/stringformat/title/linebreaks/urlize/random/phone2numeric are outside the model.",
   "technique": "Lean 4 theorems (omega over Int) on filter models + exhaustive-window differential ApplyFilter + reference oracles",
  },
+ "C07": {
+  "text": "Theorem in Lean 4 (eval_embed): for every expression tree of the uncontroversial fragment, of any depth, the evaluator applied to the node the tree parses to returns exactly the value of the tree's fully parenthesised reading under an independent typed reference semantics (integer arithmetic on integers, float as soon as a float is involved, + concatenating with a string, short-circuit and/or, C-like not) and leaves the execution state unchanged; a zero divisor, and only that, is an execution error. Supporting theorems: every binary/unary operator agrees with the reference on all typed scalars (evalBin_denote, evalUnary_denote); longest-match lexing of symbols decided on the regenerated symbol table. Precedence/associativity of the parser (tree <-> source text) is decided by correspondence: all trees of depth <= 2 and samples up to depth 8, printed with minimal parentheses, random spacing and operator spellings, against an independent Go evaluator and the Lean model.",
+  "ref": "DESIGN.md §6 C07",
+  "note": "Trusted: Lean kernel; Lean Float (opaque) for float operations; math.Pow only where exact; parse_pp (parser o minimal-parentheses printer = id) not yet proved — parser tied by differential execution.",
+  "technique": "Lean 4 theorem evaluator = typed reference semantics (induction on trees) + regenerated symbol table + differential rendering against an independent evaluator",
+ },
 }
 PENDING = {}
